@@ -1182,7 +1182,7 @@ pub(crate) fn run_c08(replay: Option<&str>) -> Report {
         rep.evaluations = 1;
         return rep;
     }
-    let depth = if rep.thorough() { 10 } else { 7 };
+    let depth = if rep.thorough() { 14 } else { 7 };
     rep.rule = format!("BFS over timed traces of the real PeerFsm under the driver's timer interpretation (virtual time); 25 (local,remote) hold-time pairs from {{0,3,9,90,65535}}²; steps: connect, OPEN rx, fire earliest timer, advance δ∈{{1,h/3,h-1,h}} then KEEPALIVE/UPDATE/ROUTE-REFRESH rx or update-sent; depth {depth}; oracle: interval reference (hold deadline = last rx + min(local,remote); keepalive deadline = last tx + h/3; zero ⇒ no timer armed, no expiry); non-trivial = distinct canonical (state, relative deadlines) tuple");
     rep.notes.push("assume: the driver interprets Set*Timer(n) as 'replace the pending sleep with now+n' (PeerSession::apply_outputs) and serves hold before keepalive before received messages (select_biased order in run_select)".into());
     for m in &models {
